@@ -60,10 +60,10 @@ Theorem C06_hypersingular_decomposition :
               (scalar_dense RO g (dp0_of RO st) (dp0_of RO ss) quad kr ks Et Es pairs) in
   let V1 := fun r s => entry (o0 RO) (oadd RO) r s
               (scalar_dense RO g (dp1_of RO st) (dp1_of RO ss) quad kr ks Et Es pairs) in
-  entry (o0 RO) (oadd RO) I J (helm_hyp_dense RO g st ss quad kr ks k Et Es pairs) =
+  entry (o0 RO) (oadd RO) I J (helm_hyp_dense RO g st ss quad kr ks Et Es pairs k) =
     osub RO (congr3 RO nE (Cmat RO g st) (Cmat RO g ss) V0 I J)
             (omul RO (omul RO k k) (congr3 RO (3 * nE) (Nmat RO g st) (Nmat RO g ss) V1 I J))
-  /\ entry (o0 RO) (oadd RO) I J (modhelm_hyp_dense RO g st ss quad kr ks k Et Es pairs) =
+  /\ entry (o0 RO) (oadd RO) I J (modhelm_hyp_dense RO g st ss quad kr ks Et Es pairs k) =
     oadd RO (congr3 RO nE (Cmat RO g st) (Cmat RO g ss) V0 I J)
             (omul RO (omul RO k k) (congr3 RO (3 * nE) (Nmat RO g st) (Nmat RO g ss) V1 I J))
   /\ entry (o0 RO) (oadd RO) I J (lap_hyp_dense RO g st ss quad kr ks Et Es pairs) =
@@ -85,7 +85,7 @@ Theorem C06_efield_decomposition :
               (scalar_dense RO g (dp0_of RO st) (dp0_of RO ss) quad (kern0 RO kr) (kern0 RO ks) Et Es pairs) in
   let V1 := fun r s => entry (o0 RO) (oadd RO) r s
               (scalar_dense RO g (dp1_of RO st) (dp1_of RO ss) quad (kern0 RO kr) (kern0 RO ks) Et Es pairs) in
-  entry (o0 RO) (oadd RO) I J (efield_dense RO g st ss quad kr ks mik ik Et Es pairs) =
+  entry (o0 RO) (oadd RO) I J (efield_dense RO g st ss quad kr ks Et Es pairs mik ik) =
     osub RO (omul RO mik (congr3 RO (3 * nE) (Rmat RO g st) (Rmat RO g ss) V1 I J))
             (omul RO (oinv RO ik) (congr1 RO nE (Dmat RO g st) (Dmat RO g ss) V0 I J)).
 Proof. exact @efield_dense_decomposition. Qed.
